@@ -53,6 +53,12 @@ def call_cases(callees, max_ar, rng=None, triple_sample=None):
                 pre = "; ".join("def %s = %s" % (VARS[i], P.POOL_SRC[n]) for i, n in enumerate(names))
                 call = "%s(%s)" % (expr, ", ".join(VARS[:k]))
                 yield disp, "call", (pre + "; " if pre else "") + call, names
+        # the very same value in two (three) argument positions
+        if k_max >= 2:
+            for n in P.POOL_NAMES:
+                yield disp, "call", "def a = %s; %s(a, a)" % (P.POOL_SRC[n], expr), (n, "=same")
+                if k_max >= 3:
+                    yield disp, "call", "def a = %s; %s(a, a, a)" % (P.POOL_SRC[n], expr), (n, "=same", "=same")
         # one-at-a-time named arguments beyond position 3
         plain = [a for a in argnames if not a.endswith("...")]
         for idx in range(3, len(plain)):
